@@ -178,6 +178,8 @@ def replay(ctx):
 def run(ctx):
     if ctx.replay:
         return replay(ctx)
+    import X_bootstrap
+    _bg_bootstrap = vlib.background(ctx, X_bootstrap.run_extra, "X_bootstrap")
     T = ctx.thorough()
     rng = random.Random(ctx.seed)
     ctx.assumptions += [
@@ -316,5 +318,4 @@ def run(ctx):
 
     # ---- extra coverage: pkg/upstream/bootstrap (the address a hostname upstream dials comes from here):
     # spec/Bootstrap.tla, harness/drv_bootstrap (built by the lead; also runnable as `bin/check X_bootstrap quick`)
-    import X_bootstrap
-    X_bootstrap.run_extra(ctx)
+    _bg_bootstrap.join()
